@@ -61,6 +61,7 @@ class Flow:
         self.max_depth = max_depth
         self._defs = {}
         self._memo = {}
+        self._allocs = {}
 
     # -- definitions of locals -------------------------------------------
     def defs(self, fn_node):
@@ -203,11 +204,17 @@ class Flow:
             return self._chain_atoms(e, fn, bind, depth, _seen)
         if isinstance(e, ast.Call):
             return self._call_atoms(e, fn, bind, depth, _seen)
+        if isinstance(e, ast.Slice):
+            return A(e.lower) | A(e.upper) | A(e.step)
         if isinstance(e, (ast.List, ast.Tuple, ast.Set)):
             for x in e.elts:
                 out |= A(x)
+            if not e.elts and not isinstance(e, ast.Tuple):
+                out.add(self._alloc(e, fn))
             return out
         if isinstance(e, ast.Dict):
+            if not e.keys:
+                out.add(self._alloc(e, fn))
             for k, v in zip(e.keys, e.values):
                 out |= A(v)
                 if k is not None and isinstance(k, ast.Constant):
@@ -226,9 +233,15 @@ class Flow:
         if isinstance(e, ast.Starred):
             return A(e.value)
         if isinstance(e, (ast.ListComp, ast.GeneratorExp, ast.SetComp)):
-            return A(e.elt)
+            out = A(e.elt)
+            if any(g.ifs for g in e.generators):
+                out.add('if()')     # some elements are filtered out
+            return out
         if isinstance(e, ast.DictComp):
-            return A(e.value) | A(e.key)
+            out = A(e.value) | A(e.key)
+            if any(g.ifs for g in e.generators):
+                out.add('if()')
+            return out
         if isinstance(e, ast.JoinedStr):
             for v in e.values:
                 out |= A(v)
@@ -247,6 +260,16 @@ class Flow:
         if isinstance(e, ast.NamedExpr):
             return A(e.value)
         return {unparse(e)}
+
+    def _alloc(self, node, fn):
+        """Identity of a fresh empty container (so that `x = []; f(x);
+        g(x)` shows the same object reaching f and g). The ordinal is only
+        meaningful within one run."""
+        key = id(node)
+        if key not in self._allocs:
+            self._allocs[key] = 'alloc:{}#{}'.format(
+                fn.qualname if fn else '<module>', len(self._allocs))
+        return self._allocs[key]
 
     def _comp_binding(self, name_node, fn):
         """(iter expr, tuple index or None) when the name is the target of an
@@ -294,7 +317,10 @@ class Flow:
             if isinstance(root, ast.Attribute):
                 suffix.append('.' + root.attr)
             else:
-                suffix.append('[' + self._key_text(root.slice, fn) + ']')
+                kt = self._key_text(root.slice, fn)
+                if kt:
+                    suffix.append('[' + kt + ']')
+                # computed keys: element access is transparent
             root = root.value
         suf = ''.join(reversed(suffix))
         out = set()
@@ -303,9 +329,10 @@ class Flow:
         while isinstance(r_, (ast.Attribute, ast.Subscript)):
             if isinstance(r_, ast.Subscript) and not isinstance(
                     r_.slice, ast.Constant):
-                out |= {a for a in self.atoms(r_.slice, fn, bind, depth,
-                                              _seen)
-                        if not a.startswith('const:')}
+                out |= {a if a.startswith('via:') else 'via:' + a
+                        for a in self.atoms(r_.slice, fn, bind, depth,
+                                            _seen)
+                        if not a.startswith(('const:', 'key:'))}
             r_ = r_.value
         if isinstance(root, ast.Name) and fn is not None and not \
                 self._is_local(root.id, fn):
@@ -317,12 +344,28 @@ class Flow:
                     depth < self.max_depth:
                 out |= self.atoms(r[3], None, None, depth + 1, _seen)
             return out
-        roots = self.atoms(root, fn, bind, depth, _seen)
+        if isinstance(root, ast.Call):
+            # attributes of a call result: of the call itself (opaque), of
+            # what a repository callee returns, or of the arguments of a
+            # transparent wrapper -- not of every argument flowing in
+            fname = unparse(root.func)
+            texts = self._call_texts(root, fn, bind, depth, _seen)
+            if fname in TRANSPARENT or (
+                    isinstance(root.func, ast.Attribute) and
+                    root.func.attr in TRANSPARENT_METHODS and
+                    self.resolve_call(root, fn) is None):
+                roots = self.atoms(root, fn, bind, depth, _seen)
+            elif self.resolve_call(root, fn) is not None:
+                roots = self.atoms(root, fn, bind, depth, _seen) | texts
+            else:
+                roots = texts
+        else:
+            roots = self.atoms(root, fn, bind, depth, _seen)
         for r in roots:
             if r.startswith(('const:', 'key:')):
                 continue
-            if r.endswith('()') and len(r) > 2:
-                # marker of a call: the precise text form is also present
+            if r.startswith(('alloc:', 'via:')):
+                out.add(r)
                 continue
             base = r[6:] if r.startswith('param:') else r
             out.add(base + suf)
@@ -334,7 +377,12 @@ class Flow:
         if isinstance(k, ast.Constant):
             return repr(k.value)
         if isinstance(k, ast.Attribute):
-            return unparse(k)
+            r = k
+            while isinstance(r, ast.Attribute):
+                r = r.value
+            if isinstance(r, ast.Name) and (fn is None or not
+                                            self._is_local(r.id, fn)):
+                return unparse(k)      # a named constant (enum member)
         return ''
 
     def _is_local(self, name, fn):
@@ -543,6 +591,11 @@ class Flow:
         if fname in TRANSPARENT:
             for a in args:
                 out |= A(a)
+            if fname in ('reversed', 'sorted', 'set', 'frozenset',
+                         'uniques', 'iterutils.uniques', 'filter'):
+                out.add(fname.split('.')[-1] + '()')
+            if fname in ('list', 'set', 'dict') and not args:
+                out.add(self._alloc(e, fn))
             return out
         callee = self.resolve_call(e, fn)
         if callee is not None and depth < self.max_depth:
@@ -550,10 +603,7 @@ class Flow:
             rets = self._returns(callee)
             for r in rets:
                 out |= self.atoms(r, callee, b, depth + 1, _seen)
-            out.add(callee.qualname + '()')
-            at = self._arg_text(e)
-            if at:
-                out.add(callee.qualname + '(' + at + ')')
+            out.add(callee.qualname + '(' + self._arg_text(e) + ')')
             return out
         if isinstance(e.func, ast.Attribute):
             if e.func.attr in TRANSPARENT_METHODS:
@@ -562,18 +612,26 @@ class Flow:
                     out |= A(a)
                 return out
         # opaque call: its canonical text(s), plus what flows into it
+        # (tagged `via:` -- the result is computed from, not part of, them)
         for t in self._call_texts(e, fn, bind, depth, _seen):
             out.add(t)
         for a in args:
-            out |= A(a)
+            for x in A(a):
+                if x.startswith(('const:', 'key:', 'via:')):
+                    out.add(x)
+                else:
+                    out.add('via:' + x)
         return out
 
     def _arg_text(self, call):
         parts = []
         for a in call.args:
             parts.append(repr(a.value) if isinstance(a, ast.Constant)
-                         else '~')
+                         else ('*~' if isinstance(a, ast.Starred) else '~'))
         for k in call.keywords:
+            if k.arg is None:
+                parts.append('**~')
+                continue
             parts.append('{}={}'.format(k.arg, repr(k.value.value)
                                         if isinstance(k.value, ast.Constant)
                                         else '~'))
@@ -586,11 +644,7 @@ class Flow:
         at = self._arg_text(e)
         out = set()
         for h in heads:
-            if h.endswith('()') and len(h) > 2:
-                h = h[:-2] + '(~)'
-            out.add(h + '()')
-            if at:
-                out.add(h + '(' + at + ')')
+            out.add(h + '(' + at + ')')
         return out
 
     def _call_heads(self, e, fn, bind, depth, _seen):
@@ -599,9 +653,7 @@ class Flow:
         heads = set()
         if isinstance(f, ast.Attribute):
             for r in self.atoms(f.value, fn, bind, depth, _seen):
-                if r.startswith(('const:', 'key:')):
-                    continue
-                if r.endswith('()') and len(r) > 2:
+                if r.startswith(('const:', 'key:', 'alloc:', 'via:')):
                     continue
                 base = r[6:] if r.startswith('param:') else r
                 heads.add(base + '.' + f.attr)
@@ -623,22 +675,28 @@ class Flow:
                                     continue
                                 _seen.add(key)
                                 try:
-                                    heads |= {
-                                        t for t in self._call_texts(
-                                            x, sc, bind if sc is fn else
-                                            None, depth, _seen)
-                                        if not t.endswith('()')}
+                                    heads |= self._call_texts(
+                                        x, sc, bind if sc is fn else None,
+                                        depth, _seen)
                                 finally:
                                     _seen.discard(key)
                             done = True
                         break
                 if not done:
                     for r in self._name_atoms(f.id, fn, bind, depth, _seen):
-                        if r.startswith(('const:', 'key:')):
+                        if r.startswith(('const:', 'key:', 'alloc:',
+                                         'via:')):
                             continue
                         heads.add(r[6:] if r.startswith('param:') else r)
             else:
                 heads.add(f.id)
+        elif isinstance(f, ast.Subscript):
+            for r in self.atoms(f, fn, bind, depth, _seen):
+                if r.startswith(('const:', 'key:', 'alloc:', 'via:')):
+                    continue
+                heads.add(r[6:] if r.startswith('param:') else r)
+            if not heads:
+                heads.add(unparse(f))
         else:
             heads.add(unparse(f))
         return heads
